@@ -48,6 +48,8 @@ def generate(rng, seed):
         weights = [rng.randint(30, 80) for _ in edges]
         spec = {"nodes": nodes, "edges": edges, "labels": "int"}
         return {"engine": "svh", "seed": seed, "spec": spec, "weights": weights, "max_order": 10, "workers": rng.randint(1, 64)}
+    if rng.random() < 0.04 and len(weights) >= 2:
+        weights[rng.randrange(len(weights) - 1)] = rng.choice([1001, 1200, 2500])  # a very heavy hyperedge, not the last one
     return {"engine": "svh", "seed": seed, "spec": spec, "weights": weights, "max_order": rng.choice([2, 3, 4, 5, 10]),
             "workers": rng.randint(1, 64)}
 
@@ -56,6 +58,19 @@ def _binom_sf(k, n, p):
     """P(X >= k+1) for X ~ Binomial(n, p), computed from the definition with exact rationals where possible."""
     from fractions import Fraction
 
+    if n > 400:
+        # long sums: log-space floats (independent of scipy), relative accuracy ~1e-12
+        pf = float(p)
+        if pf <= 0.0:
+            return 0.0 if k + 1 > 0 else 1.0
+        if pf >= 1.0:
+            return 1.0
+        lp, lq = math.log(pf), math.log1p(-pf)
+        terms = [math.lgamma(n + 1) - math.lgamma(i + 1) - math.lgamma(n - i + 1) + i * lp + (n - i) * lq for i in range(k + 1, n + 1)]
+        if not terms:
+            return 0.0
+        mx = max(terms)
+        return math.exp(mx) * math.fsum(math.exp(t - mx) for t in terms)
     p = Fraction(p)
     tot = Fraction(0)
     for i in range(k + 1, n + 1):
@@ -131,7 +146,7 @@ def execute(case):
                 for n in e0:
                     prob *= Fraction(K[n], N)
                 ref = _binom_sf(w - 1, N, prob)
-                if not (abs(p - ref) <= 1e-9 * max(ref, 1e-300) + 1e-15):
+                if not (abs(p - ref) <= (1e-9 if N <= 400 else 1e-6) * max(ref, 1e-300) + 1e-15):
                     raise Violation("C19/svh/pvalue", {"size": s, "edge": short(e), "library": p, "definition": ref, "N": N, **ctx})
             # the multiple-testing threshold computed from those p-values (step-up FDR, default alpha = 0.01,
             # Bonferroni count = number of possible hyperedges of this size on the nodes that occur at this size)
